@@ -157,7 +157,9 @@ CHECKS = {
              'two independent random comment placements): the content minus comment attributes must be identical and the comment '
              'attributes those the placement rules predict. Rendering oracle with hostile comment texts: SQL statements read back by '
              'the DDL reader are unchanged by comments, every comment line carries its marker, DBML re-parses to the same content and '
-             'comments. Theorems comment_lines_prefixed, comment_ends_with_newline, splitNL_joinNL.',
+             'comments. Theorems comment_lines_prefixed, comment_ends_with_newline, splitNL_joinNL; and at parse level: a one-line comment '
+             'directly above a table is written as a `// ` line and read back by `_c` onto that very table (optComment_eq, cBefore_comment, '
+             'cBefore_nl_comment; flags_tables_roundtrip_partial / flags_refs_roundtrip_partial: whole documents round-trip with their comments).',
         note=TB + '; placement rules of the speller; the theorems cover the line-prefix clause only',
         technique='Lean models + theorem on comment rendering + metamorphic placement oracle + DDL-reader oracle'),
     'C15': dict(
